@@ -58,6 +58,18 @@ func (x *hW) deepStep(op int) {
 		x.opBatchSetRelation(b.f, fR1, Entity{}, uR1, x.pickOKTarget("newtgt"), false, false)
 	case 8: // plain entity that can serve as a target
 		x.opNewEntity(0)
+	case 9: // batch add / remove of component B through a mask or relation filter
+		f := [2]int{fA, fR1}[vChoice("filter", 2)]
+		b := x.mkFilter(f, Entity{})
+		var add, rem uint8
+		if vChoice("dir", 2) == 0 {
+			add = B
+		} else {
+			rem = B
+		}
+		ok, m := x.batchLegal(f, Entity{}, add, rem)
+		vAssume(ok && m >= 1)
+		x.opBatchExchange(b.f, f, Entity{}, add, rem, 0, vChoice("q", 2) == 1, -1, Entity{})
 	}
 }
 
@@ -75,7 +87,7 @@ func HDeep() {
 	cf := x.w.Cache().Register(b.f)
 	steps := 3 + vTier()
 	for s := 0; s < steps; s++ {
-		x.deepStep(vChoice("op", 9))
+		x.deepStep(vChoice("op", 10))
 		x.inv()
 	}
 	x.check()
@@ -96,7 +108,7 @@ func HDeepEvents() {
 	for s := 0; s < steps; s++ {
 		rec.n = 0
 		before := x.snap()
-		op := vChoice("op", 9)
+		op := vChoice("op", 10)
 		x.deepStep(op)
 		x.checkEvents(rec, &before, op == 5)
 		x.inv()
